@@ -28,6 +28,17 @@ CHECKS = {
             "Trusts the in-memory network and synctest's virtual clock; the bound H(f) is a calibrated restatement of 'within the time "
             "the retransmission schedule needs'.",
             "DESIGN.md §4 C02"),
+    "C09": ("exploration",
+            "runtime monitoring: wire-log decoder checks (epoch, sequence) uniqueness and per-epoch monotonicity of every emitted "
+            "record; Go race detector on the sequence-number state; stress on the real scheduler plus virtual-time retransmission runs",
+            "Every record emitted in (1) race-detector stress sessions with 8 writers per side, key updates and racing Close per "
+            "cipher/CID layout, (2) hundreds/thousands of faulted handshakes (retransmissions, CID, padding, MTU 10..256) and "
+            "(3) counter-exhaustion runs is decoded (DTLS 1.3 numbers unmasked+authenticated) and checked for duplicates, order and "
+            "the 2^48 limit. Interleavings are sampled, not enumerated: evidence reports distinct emission-order fingerprints. "
+            "Export/import continuity is checked by the C19 monitor.",
+            "DTLS 1.3 numbers are recovered with the sender's own key material through library code; race reports are verdicts only when "
+            "they touch sequence-number/epoch state, others are listed as observations.",
+            "DESIGN.md §4 C09"),
 }
 
 NOT_YET = "monitor not built yet in this session (see DESIGN.md for the planned design)"
